@@ -156,21 +156,23 @@ func parseRatio(t string) float64 {
 }
 
 // documented constraints, from the messages of the configuration documentation / errors:
-// "X must be positive", "ratio must be greater than 1.0", "warning threshold must be between
-// 1 and 99", "critical threshold must be between warning threshold and 99", directories
-// specified, version valid (positive). Returns the first violated field or "".
+// "X must be positive", "ratio must be greater than 1.0" (a finite number: the manifest is JSON),
+// "warning threshold must be between 1 and 99", "critical threshold must be between warning
+// threshold and 99", directories specified and valid UTF-8, version valid (positive),
+// "Max MemTables must not exceed 65536", "Compaction interval must not exceed 9223372036 seconds".
+// Returns the first violated field or "".
 func c20Documented(c *config.Config) string {
 	pos := func(v int64) bool { return v > 0 }
 	switch {
 	case !pos(int64(c.Version)):
 		return "version"
-	case c.WALDir == "":
+	case c.WALDir == "" || !validUTF8(c.WALDir):
 		return "wal_dir"
-	case c.SSTDir == "":
+	case c.SSTDir == "" || !validUTF8(c.SSTDir):
 		return "sst_dir"
 	case !pos(c.MemTableSize):
 		return "memtable_size"
-	case !pos(int64(c.MaxMemTables)):
+	case !pos(int64(c.MaxMemTables)) || int64(c.MaxMemTables) > 65536:
 		return "max_memtables"
 	case !pos(int64(c.SSTableBlockSize)):
 		return "sstable_block_size"
@@ -178,8 +180,10 @@ func c20Documented(c *config.Config) string {
 		return "sstable_index_size"
 	case !pos(int64(c.CompactionLevels)):
 		return "compaction_levels"
-	case !(c.CompactionRatio > 1.0):
+	case !(c.CompactionRatio > 1.0) || math.IsInf(c.CompactionRatio, 0):
 		return "compaction_ratio"
+	case c.CompactionInterval > 9223372036:
+		return "compaction_interval"
 	case !pos(c.ReadOnlyTxTTL):
 		return "read_only_tx_ttl"
 	case !pos(c.ReadWriteTxTTL):
@@ -221,6 +225,10 @@ var c20ErrField = []struct{ frag, field string }{
 	{"invalid version", "version"},
 	{"WAL directory not specified", "wal_dir"},
 	{"SSTable directory not specified", "sst_dir"},
+	{"WAL directory is not valid UTF-8", "wal_dir"},
+	{"SSTable directory is not valid UTF-8", "sst_dir"},
+	{"Max MemTables must not exceed", "max_memtables"},
+	{"Compaction interval must not exceed", "compaction_interval"},
 	{"MemTable size must be positive", "memtable_size"},
 	{"Max MemTables must be positive", "max_memtables"},
 	{"SSTable block size must be positive", "sstable_block_size"},
@@ -739,6 +747,14 @@ func (s *c20State) opOpen() {
 	s.nOpen++
 	before := s.snapshot()
 	walBefore := s.walDirs()
+	nonEmptyBefore := false // does the database directory hold anything but a left-over MANIFEST.tmp?
+	if ents, rerr := os.ReadDir(s.db); rerr == nil {
+		for _, en := range ents {
+			if en.Name() != config.DefaultManifestFileName+".tmp" && en.Name() != config.DefaultManifestFileName {
+				nonEmptyBefore = true
+			}
+		}
+	}
 	// what the stored manifest says (the oracle's own reading, through the public loader)
 	stored, lerr, _ := s.load()
 	if lerr == nil {
@@ -770,6 +786,8 @@ func (s *c20State) opOpen() {
 	if err != nil {
 		tag := "err:other"
 		switch {
+		case errors.Is(err, config.ErrManifestNotFound):
+			tag = "err:nonempty"
 		case errors.Is(err, config.ErrInvalidManifest):
 			tag = "err:manifest"
 		case errors.Is(err, config.ErrInvalidConfig):
@@ -783,7 +801,6 @@ func (s *c20State) opOpen() {
 	s.printDir()
 	s.out("W " + strings.Join(s.walDirs(), ","))
 	after := s.snapshot()
-	hadData := len(walBefore) > 0
 	switch {
 	case before.hasMan && lerr != nil:
 		// unreadable or invalid stored configuration: opening must fail and change nothing
@@ -802,19 +819,23 @@ func (s *c20State) opOpen() {
 		}
 		s.checkUses(stored, walBefore)
 	default:
-		// no manifest
-		if err != nil {
-			s.fail("", "opening a directory without a manifest failed: "+err.Error())
+		// no manifest: a new database only if the directory holds nothing (a left-over
+		// MANIFEST.tmp aside); over existing files opening must be refused, nothing written
+		if nonEmptyBefore {
+			if err == nil {
+				s.fail("", "the manifest is missing over existing files and opening silently used the default configuration")
+			} else if !before.same(after) {
+				s.fail("", "a refused open changed the database directory")
+			}
 			break
 		}
-		s.defaultsUsed = hadData
+		if err != nil {
+			s.fail("", "opening an empty directory failed: "+err.Error())
+			break
+		}
 		def := config.NewDefaultConfig(s.db)
 		if got, gerr, _ := s.load(); gerr != nil || c20Diff(def, got) != "" {
 			s.fail("", "the manifest created by opening a fresh directory is not the default configuration")
-		}
-		if hadData && s.createdWAL != "" && s.createdWAL != def.WALDir {
-			s.fail("manifest_missing_defaults_over_data", "the manifest is missing over existing data: the database was created with WAL directory "+
-				string(s.canon([]byte(s.createdWAL)))+" and is silently reopened with the default configuration")
 		}
 		s.checkUses(def, walBefore)
 	}
